@@ -222,10 +222,10 @@ where
             // less.
             let next_access = match root_access.clone() {
                 Some(root_access) => {
-                    if access <= root_access {
-                        access.clone()
-                    } else {
+                    if state::is_lower_access(&root_access, &access) {
                         root_access
+                    } else {
+                        access.clone()
                     }
                 }
                 None => access.clone(),
@@ -243,7 +243,12 @@ where
                     // @TODO: we need to combine access levels here, which requires adding a
                     // trait bound to conditions which allows combining them as well. Or we
                     // return an array of access levels for each peer.
-                    if *current_access < next_access {
+                    //
+                    // `Access::partial_cmp` is not antisymmetric once conditions are involved
+                    // (two accesses can each be "less" than the other), which made the result
+                    // depend on the iteration order of the member map; the strict order used by
+                    // `state::merge` is used here as well.
+                    if state::is_lower_access(current_access, &next_access) {
                         *current_access = next_access.clone();
                     }
                 })
